@@ -437,7 +437,7 @@ def main():
             print('UNDECIDED-BY-PROOF property=%s reason=function %s was not checked by the verifier' % (pid, u))
         rc = 2
     c17 = None
-    if pid == 'C17' and rc != 1:
+    if pid == 'C17':
         # clauses no contract can reach (colour-string parsing, SVG text): bounded stand-in on the real wasm.rs,
         # compiled natively in a scratch copy (labelled bounded, never counted as proved)
         try:
@@ -460,8 +460,11 @@ def main():
                            'input': {'clause': new_f[0].split(' :: ')[0], 'observed': new_f[0].split(' :: ', 1)[1]}, 'native_cmd': c17['cmd']}, open(replay_path, 'w'), indent=1)
                 for f in new_f[:5]:
                     print('FAILED-OBLIGATION property=C17 native::%s' % f)
-                print('VIOLATION property=C17 replay=%s' % replay_path)
-                violations = [('native::' + f.split(' :: ')[0], {'fn': None, 'msg': f}) for f in new_f]
+                if rc == 1:
+                    print('NOTE property=C17 failing input found by the bounded native harness: replay=%s' % replay_path)
+                else:
+                    print('VIOLATION property=C17 replay=%s' % replay_path)
+                    violations = [('native::' + f.split(' :: ')[0], {'fn': None, 'msg': f}) for f in new_f]
                 rc = 1
         elif c17['ok'] is None:
             print('NOTE property=C17 bounded native harness unavailable in this tree: %s' % c17.get('reason'))
@@ -571,5 +574,30 @@ def main():
     return rc
 
 
+def guarded_main():
+    """An internal error of the machinery is a tool limit, never a verdict: exit 2 (or the bounded stand-in),
+    and never a VIOLATION line."""
+    try:
+        return main()
+    except SystemExit:
+        raise
+    except BaseException as e:   # noqa: BLE001
+        import traceback
+        tb = traceback.format_exc()
+        sys.stderr.write(tb)
+        pid = next((x for x in sys.argv[1:] if re.fullmatch(r'C\d\d', x)), '?')
+        print('UNDECIDED-BY-PROOF property=%s reason=internal error of the verification machinery: %r' % (pid, e))
+        try:
+            class _A:
+                tier = 'thorough' if 'thorough' in sys.argv else 'quick'
+            if pid in props.PROPS:
+                import native
+                if pid in native.PROPS:
+                    return bounded_only(pid, _A, int(os.environ.get('VERIF_SEED', '0') or 0), time.time(), 'internal error: %r' % e)
+        except BaseException as e2:   # noqa: BLE001
+            print('bounded stand-in failed as well: %r' % e2)
+        return 2
+
+
 if __name__ == '__main__':
-    sys.exit(main())
+    sys.exit(guarded_main())
